@@ -24,7 +24,7 @@ fn canary() -> Vec<Outcome> {
     for g in crate::workload::named_graphs().into_iter().filter(|g| g.name == "triangle" || g.name == "sunrise") {
         match build(&g) {
             Built::Ok(s) => {
-                out.push(Outcome::Image(s.image().digest()));
+                out.push(Outcome::Image(s.image_settled().digest()));
                 let dim = s.dimension();
                 let point: Vec<u64> = (0..dim).map(|i| (0.137 + 0.618 * i as f64).fract().to_bits()).collect();
                 let ed: crate::sampler::EdgeData =
@@ -67,7 +67,7 @@ pub fn env_canary_digest() -> u64 {
                 let pt: Vec<u64> = (0..dim).map(|_| r.unit_open().to_bits()).collect();
                 h = mix(h, crate::model::outcome_digest(&s.sample_x(&pt, &ed, &Settings::plain())));
             }
-            h = mix(h, s.image().digest());
+            h = mix(h, s.image_settled().digest());
         }
     }
     crate::ctx::uninstall();
